@@ -19,6 +19,7 @@ import (
 	"sort"
 	"strconv"
 	"strings"
+	"sync"
 	"time"
 
 	"github.com/cloudwego/eino/compose"
@@ -96,6 +97,7 @@ type RunObs struct {
 	SClass  string            `json:"sclass,omitempty"` // the same run through Stream
 	SResult string            `json:"sresult,omitempty"`
 	SMsg    string            `json:"smsg,omitempty"`
+	Fab     string            `json:"fab,omitempty"` // a lambda received a value that nobody produced (any mode)
 }
 
 type LatObs struct {
@@ -220,6 +222,13 @@ func build(c *Case, plans []runPlan, extra bool) (bo BuildObs) {
 		gopts = append(gopts, compose.WithGenLocalState(func(ctx context.Context) *u.St2 { return &u.St2{} }))
 	}
 	cur := map[int]string{} // emitted value per node for the current run
+	// every value a lambda receives in the current run (a run abandoned by the watchdog may still write)
+	type seenVal struct {
+		key int
+		v   any
+	}
+	var seenMu sync.Mutex
+	var seenVals []seenVal
 	var g graphH
 	if p := lib.Recover(func() { g = newGraphH(c.In, c.Out, gopts...) }); p != nil {
 		bo.Errs = append(bo.Errs, "PANIC NewGraph: "+short(fmt.Sprint(p)))
@@ -244,9 +253,14 @@ func build(c *Case, plans []runPlan, extra bool) (bo BuildObs) {
 				if o.K == "node" {
 					key := o.Key
 					emit := func() any { return valueOf(cur[key]) }
+					seen := func(v any) {
+						seenMu.Lock()
+						seenVals = append(seenVals, seenVal{key, v})
+						seenMu.Unlock()
+					}
 					if o.Kind == 4 {
 						sub := newGraphH(o.In, o.Out)
-						if err = sub.AddLambdaNode("x", newLambda(o.In, o.Out, emit, 0)); err == nil {
+						if err = sub.AddLambdaNode("x", newLambda(o.In, o.Out, emit, seen, 0)); err == nil {
 							if err = sub.AddEdge(compose.START, "x"); err == nil {
 								err = sub.AddEdge("x", compose.END)
 							}
@@ -256,7 +270,7 @@ func build(c *Case, plans []runPlan, extra bool) (bo BuildObs) {
 						}
 						err = g.AddSubGraph(keyName(o.Key), sub, opts...)
 					} else {
-						err = g.AddLambdaNode(keyName(o.Key), newLambda(o.In, o.Out, emit, o.Kind), opts...)
+						err = g.AddLambdaNode(keyName(o.Key), newLambda(o.In, o.Out, emit, seen, o.Kind), opts...)
 					}
 				} else {
 					err = g.AddPassthroughNode(keyName(o.Key), opts...)
@@ -336,6 +350,25 @@ func build(c *Case, plans []runPlan, extra bool) (bo BuildObs) {
 			err error
 			p   any
 		}
+		legitVals := []any{valueOf(pl.input)}
+		for _, v := range pl.emit {
+			legitVals = append(legitVals, valueOf(v))
+		}
+		for _, o := range c.Ops {
+			for _, h := range []*H{o.Pre, o.Post} {
+				if h != nil && h.Ret != "" {
+					legitVals = append(legitVals, valueOf(h.Ret))
+				}
+			}
+		}
+		legit := func(v any) bool {
+			for _, l := range legitVals {
+				if reflect.DeepEqual(v, l) {
+					return true
+				}
+			}
+			return false
+		}
 		cur_inv := inv
 		once := func(stream bool) (class, result, msg string) {
 			ch := make(chan res, 1)
@@ -345,6 +378,9 @@ func build(c *Case, plans []runPlan, extra bool) (bo BuildObs) {
 				r.p = lib.Recover(func() { r.out, r.err = run(ctx, valueOf(pl.input), stream) })
 				ch <- r
 			}()
+			seenMu.Lock()
+			seenVals = nil
+			seenMu.Unlock()
 			select {
 			case r := <-ch:
 				class, msg = classify(r.p, r.err)
@@ -352,6 +388,19 @@ func build(c *Case, plans []runPlan, extra bool) (bo BuildObs) {
 				if class == "ok" {
 					result = dynOf(r.out)
 				}
+				// no value is made up on the way: whatever a lambda receives is (deeply equal to) the graph
+				// input, a value some lambda emits in this run, or a value a state handler returns
+				seenMu.Lock()
+				for _, sv := range seenVals {
+					if !legit(sv.v) && ro.Fab == "" {
+						mode := "Invoke"
+						if stream {
+							mode = "Stream"
+						}
+						ro.Fab = fmt.Sprintf("%s: node %d received %#v (%s), which nobody produced", mode, sv.key, sv.v, dynOf(sv.v))
+					}
+				}
+				seenMu.Unlock()
 			case <-time.After(10 * time.Second):
 				class = "hang"
 			}
@@ -835,6 +884,9 @@ func (engine) Run(ci any) lib.Result {
 		}
 		for k := range b.Runs {
 			r := &b.Runs[k]
+			if r.Fab != "" {
+				fail("fabricated-value", fmt.Sprintf("accepted graph: run %d (input %s, emit %v): %s: a value that is not assignable must be reported, not replaced", k, r.Input, r.Emit, r.Fab))
+			}
 			switch r.Class {
 			case "panic_esc":
 				fail("panic-escaped", fmt.Sprintf("accepted graph: run %d (input %s, emit %v) panicked on the caller's goroutine: %s", k, r.Input, r.Emit, r.Msg))
